@@ -244,30 +244,37 @@ def call(ex, st, fr, callee, last, args, argops, dest):
             cond = (x == 0) if k == w else z3.And(x >= (1 << (w - 1 - k)), x < (1 << (w - k)))
             if ex.proves(st, cond, 2000):
                 return IV(k, "u32")
-        alts = []
         signed = INT_TYPES[ity][0]
-        for k in range(0, w + 1):
-            if lead:
-                if signed:
-                    return NotImplemented
-                if k == w:
-                    cond = (x == 0)
-                else:
-                    cond = z3.And(x >= (1 << (w - 1 - k)), x < (1 << (w - k)))
-                alts.append((cond, IV(k, "u32"), None))
-            else:
-                if k == w:
-                    alts.append(((x == 0), IV(k, "u32"), None))
-                else:
-                    m = T.fresh_int("odd")
-                    cond = (x == (2 * m + 1) * (1 << k))
-                    alts.append((cond, IV(k, "u32"), None))
+        if lead and signed:
+            return NotImplemented
 
-        def mk(k):
-            def fix(s2):
-                s2.divcache[key] = k
-            return fix
-        return E._Alts([(cnd, val) for (cnd, val, _) in alts])
+        def cond_for(k):
+            if lead:
+                return (x == 0) if k == w else z3.And(x >= (1 << (w - 1 - k)), x < (1 << (w - k)))
+            if k == w:
+                return (x == 0)
+            m = T.fresh_int("odd")
+            return (x == (2 * m + 1) * (1 << k))
+        if lead:
+            # the feasible results form an interval: find one by a model, then widen while feasible
+            sv = z3.Solver()
+            sv.set("timeout", 3000)
+            for cst in st.constraints():
+                sv.add(cst)
+            if sv.check() == z3.sat:
+                xv = sv.model().eval(x, model_completion=True).as_long()
+                k0 = w if xv == 0 else w - xv.bit_length()
+                ks = [k0]
+                k = k0 - 1
+                while k >= 0 and ex.feasible(st, cond_for(k)):
+                    ks.insert(0, k)
+                    k -= 1
+                k = k0 + 1
+                while k <= w and ex.feasible(st, cond_for(k)):
+                    ks.append(k)
+                    k += 1
+                return E._Alts([(cond_for(k), IV(k, "u32")) for k in ks])
+        return E._Alts([(cond_for(k), IV(k, "u32")) for k in range(0, w + 1)])
     if ity and c.endswith(">::from_le"):
         _use("core::num::<impl int>::from_le (little-endian target)")
         return args[0]
